@@ -43,8 +43,9 @@ CHECKS = {
             "TLC enumerates (name, argc, style, context); expected outcome and exception payload computed by the TLA+ "
             "parser machine from the spec's Functions table (cross-checked against the table by an invariant); "
             "replayed into the real parser",
-            "Exhaustive: 55 names (33 built-ins, 3 geo, near-misses, custom namespaces) x argc 0..5 x 6 argument "
-            "styles x 5 contexts = 9,625 calls; outcome incl. exception payload must equal the spec's.",
+            "Exhaustive: 64 names (33 built-ins, 3 geo, near-misses, custom namespaces, six with non-ASCII word characters) "
+            "x argc 0..5 x 10 argument styles (incl. named parameters out of alphabetical order, equal literals, non-ASCII "
+            "identifiers) x 6 contexts = 22,968 calls, each in two layouts; outcome incl. exception payload must equal the spec's.",
             "Trusted: spec/OData.tla Functions table (transcribed from the OData standard)."),
     "C06": ("DESIGN.md 6/C06",
             "TLC generates literal/identifier spellings from structured descriptions (MC_C06) with exact meanings; "
@@ -83,7 +84,9 @@ CHECKS = {
             "non-mutation of every shipped visitor and ==/structure agreement replayed on real trees",
             "Exhaustive within bounds: every tree with <=1 wide / <=2 narrow (thorough: sampled 2 wide) operator/bracket "
             "nodes over all node kinds x (no override, every occurring class, two absent classes): each real dispatch "
-            "log is a trace TLC accepts or rejects; each transformer output equals the spec's.",
+            "log is a trace TLC accepts or rejects (NodeVisitor and a recording NodeTransformer); each transformer output "
+            "equals the spec's; the two shipped transformers equal Rewrite!Subst / Rewrite!Relative on six trees whose "
+            "lambda scopes nest, re-bind and end.",
             "Trusted: spec/Visitor.tla field table; recorder subclass (log entries are written by the handler that was "
             "actually invoked)."),
     "C17": ("DESIGN.md 6/C17",
@@ -95,9 +98,11 @@ CHECKS = {
     "C18": ("DESIGN.md 6/C18",
             "TLC enumerates well-typed expressions from a typed derivation machine (MC_C18); invariant: bottom-up "
             "Typing!TypeOf = intended type; replayed into infer_type / typecheck / SQL visitors",
-            "Exhaustive within bounds: every well-typed expression with <=3 (thorough 4) function/operator nodes over 9 "
-            "root types (105k states quick); inferred type must be unknown or the spec type; typecheck accepts every "
-            "admissible set and rejects literals of other kinds; visited in two orders.",
+            "Exhaustive within bounds: every well-typed expression with <=3 (thorough 4) function/operator nodes over 11 "
+            "root types (114k states quick); inferred type must be unknown or the spec type; typecheck accepts every "
+            "admissible set and rejects literals of other kinds; visited in two orders; 690 calls that Typing!MustReject "
+            "declares ill-typed under every overload must be refused by the 3 SQL dialects and the 3 ORM visitors "
+            "(named deviations where a backend has no check at all).",
             "Trusted: spec/Typing.tla ReturnType (transcribed from OData 4.01)."),
     "C01": ("DESIGN.md 6/C01",
             "TLC enumerates typed scalar filters (MC_Sem) and computes with the TLA+ evaluator Sem!Eval the valuations "
@@ -138,9 +143,10 @@ CHECKS = {
             "entry style x filter, then Apply); every behaviour replayed on natively built host queries with the real "
             "shorthands; rows/order/annotations/join count compared with the spec (Rel!EvalR); import-order histories of "
             "sqlalchemy.func in fresh subprocesses",
-            "Exhaustive: all 5.5k behaviours of the machine (4 entry styles, 3 base conditions, inner/outer pre-join, "
-            "ordering, annotation, 9 filters); 19 host func names compared before/after importing the backend, in both "
-            "import orders.",
+            "Exhaustive: all 35k behaviours of the machine (7 entry styles incl. column-subset bases, 3 base conditions, "
+            "5 pre-joins, ordering, annotation, 10 filters + 3 comparisons on a path through a collection whose result is a "
+            "bag of base rows); the host's own query object is evaluated again afterwards; 19 host func names compared "
+            "(class, type, rendering, value on a fresh SQLite connection) before/after importing the backend, in both import orders.",
             "Trusted: spec/Rel.tla; native base-query construction in harness/props/c15.py; SQLite 3.40."),
     "C07": ("DESIGN.md 6/C07",
             "TLC generates filter pairs differing in one string literal / field spelling (MC_C07); the SQL emitted by the "
@@ -172,8 +178,10 @@ CHECKS = {
             "inventory; outcome class + emitted/compiled SQL + parameters of the 7 backends are traces validated by TLC "
             "(Trace_Complete: allowed-outcome contract, well-formedness, no placeholder, every field and literal "
             "represented)",
-            "Exhaustive over 920 (construct, position) filters x 7 backends + 17 unknown field names x 7 contexts on the "
-            "three SQLAlchemy entry points.",
+            "Exhaustive over 1,470 (construct, position) filters (incl. built-ins with named parameters, the null literal "
+            "in list / call / arithmetic positions, ill-typed pattern arguments) x 7 backends; an accepted round-trip "
+            "rendering is read back and must be the filter's own tree; + 17 unknown field names x 7 contexts on the three "
+            "SQLAlchemy entry points.",
             "Trusted: SqlLex/SqlRead; needle spellings per literal kind; exception classification by class."),
 }
 
